@@ -1,8 +1,8 @@
 """C15  ignore_case build equals the default build with every pattern i-prefixed.
 
 (a) The MIR dumps of the two builds (default / --features ignore_case) are
-    compared function by function: `into_identifier` must be the only body
-    that differs.
+    compared function by function: only bodies of the pattern-parsing layer
+    (src/identifier.rs, entry point `into_identifier`) may differ.
 (b) `into_identifier` of both builds (real MIR) is executed on a symbolic string
     s (ignore_case build) and on "i" + s (default build); for every pair of
     compatible paths z3 decides that the two results - Ok/Err, pattern kind,
@@ -57,14 +57,17 @@ def run_unit(ck, unit):
         differing = [n for n in fa if n in fb and body_sig(fa[n]) != body_sig(fb[n])]
         ck.extra['functions_compared'] = len(set(fa) & set(fb))
         ck.extra['functions_differing'] = differing
-        okd = all('into_identifier' in n for n in differing) and not [n for n in names_differ if 'promoted' not in n and 'into_identifier' not in n]
+        # the builds may differ only inside the pattern-parsing layer (src/identifier.rs); part (b) then compares
+        # into_identifier of the two builds, which is the only entry point of that layer
+        in_layer = lambda n: n.startswith('identifier::') or 'src/identifier.rs' in n
+        okd = all(in_layer(n) for n in differing) and not [n for n in names_differ if 'promoted' not in n and not in_layer(n)]
         if okd and differing:
             ck.discharged += 1
         elif not differing:
             ck.inconclusive.append('the ignore_case build does not differ from the default build at all (feature not compiled in?)')
         else:
             p = ck.write_replay('mir_diff', {'differing': differing, 'only_in_one': names_differ})
-            ck.violations.append((p, 'functions other than into_identifier differ between the builds: %s' % [n for n in differing if 'into_identifier' not in n][:5]))
+            ck.violations.append((p, 'functions outside the pattern-parsing layer differ between the builds: %s' % [n for n in differing if not in_layer(n)][:5]))
         ck.samples.append({'form': 'MIR diff', 'differing': differing})
         return
     if kind == 'ident':
